@@ -179,18 +179,31 @@ def reachable_counts(phis, tols, n):
             amb.append(sorted(cands))
     namb = len(amb)
     amb = [c for c in amb if not all(b in certain for b in c)]   # the others cannot change the count
-    uniq = []
+    import itertools
+    mult = {}
     for c in amb:
-        if c not in uniq:
-            uniq.append(c)
-    if len(uniq) <= 12:
+        mult[tuple(c)] = mult.get(tuple(c), 0) + 1
+    # observations sharing a candidate set may end up in different bins: any non-empty subset of the candidates
+    # of size <= their number can be the set of bins they occupy
+    options = []
+    for c, k in mult.items():
+        opts = []
+        for r in range(1, min(k, len(c)) + 1):
+            opts += [set(x) for x in itertools.combinations(c, r)]
+        options.append(opts)
+    total = 1
+    for o in options:
+        total *= len(o)
+    if total <= 20000:
         res = set()
-        import itertools
-        for choice in itertools.product(*uniq) if uniq else [()]:
-            res.add(len(certain | set(choice)))
+        for choice in itertools.product(*options) if options else [()]:
+            occ = set(certain)
+            for ch in choice:
+                occ |= ch
+            res.add(len(occ))
         return res, namb
     allc = set(certain)
-    for c in uniq:
+    for c in mult:
         allc |= set(c)
     return set(range(len(certain), len(allc) + 1)), namb
 
